@@ -195,6 +195,28 @@ pub fn scenarios(prop: &str, tier: &str) -> Vec<Arc<dyn Scenario>> {
                 }
             }
             if prop == "C01" {
+                // bulk: hundreds of tiny entries in one data block (far more than 254 restart points),
+                // hash index on, read every key
+                let n = 600u32;
+                let keys: Vec<Vec<u8>> = (0..n).map(|i| format!("k{i:04}").into_bytes()).collect();
+                let all = Op::Seq { ops: (0..n).map(|k| Op::PutIdx { k }).collect() };
+                let over = Op::Seq { ops: (0..n).step_by(3).map(|k| Op::PutIdx { k }).collect() };
+                let dels = Op::Seq { ops: (0..n).step_by(7).map(|k| Op::DelIdx { k }).collect() };
+                let fl0 = Op::Flush { w: Wm::Zero };
+                let seeds = vec![
+                    vec![all.clone(), fl0.clone()],
+                    vec![all.clone(), fl0.clone(), over.clone(), dels.clone(), fl0.clone()],
+                    vec![all.clone(), fl0.clone(), over.clone(), dels.clone(), fl0.clone(), Op::Major { w: Wm::Tight, target: u64::MAX }],
+                ];
+                for (name, restart, hash, bsz) in [("r1-h8", 1u8, 8.0f32, 65536u32), ("r2-h8", 2, 8.0, 65536), ("r16-h0", 16, 0.0, 4096)] {
+                    let mut c = TreeCfg::small(keys.clone());
+                    c.block_size = bsz;
+                    c.restart_interval = restart;
+                    c.hash_ratio = hash;
+                    v.push(std(&format!("C01-bulk-{name}"), c, Alphabet { reopen: true, ..Default::default() }, bs(0, 0, 0, 1, 0), seeds.clone(), oracle));
+                }
+            }
+            if prop == "C01" {
                 let (bd, sd) = if quick { (b(2, 2, 0, 1), 1) } else { (b(2, 2, 0, 1), 2) };
                 v.push(std(
                     "C01-altlayout",
